@@ -317,3 +317,53 @@ theorem buildList_single (env : Nat → V3) (jc : Joiner) (e : Ex) :
   rw [expandFlat_setJoin, evalFlat_setJoin]
 
 end Gorm
+
+namespace Gorm
+
+/-! ### lists without OR-joined members: plain conjunctions -/
+
+def noSingleOr (l : List Ex) : Bool := l.all (fun e => !e.isSingleOr)
+
+/-- AND of the members' own meanings, starting from `cur` -/
+def andUnits (env : Nat → V3) (cur : V3) : List Ex → V3
+  | [] => cur
+  | e :: r => andUnits env (cur.and (unitVal env e)) r
+
+theorem listSpecRuns_noOr (env : Nat → V3) (acc cur : V3) (l : List Ex) (h : noSingleOr l = true) :
+    listSpecRuns env .and acc cur l = acc.or (andUnits env cur l) := by
+  induction l generalizing cur with
+  | nil => rfl
+  | cons e r ih =>
+    simp only [noSingleOr, List.all_cons, Bool.and_eq_true, Bool.not_eq_true'] at h
+    obtain ⟨he, hr⟩ := h
+    simp only [listSpecRuns, memberJoin, he, Bool.false_eq_true, if_false, andUnits]
+    exact ih _ (by simpa [noSingleOr] using hr)
+
+theorem andUnits_append (env : Nat → V3) (cur : V3) (l : List Ex) (x : Ex) :
+    andUnits env cur (l ++ [x]) = (andUnits env cur l).and (unitVal env x) := by
+  induction l generalizing cur with
+  | nil => rfl
+  | cons e r ih => simp only [List.cons_append, andUnits]; exact ih _
+
+/-- appending an AND-joined member to a conjunction list ANDs its meaning to the whole -/
+theorem listSpec_append (env : Nat → V3) (l : List Ex) (x : Ex) (hl : noSingleOr l = true) (hx : x.isSingleOr = false) :
+    listSpec env .and (l ++ [x]) = (listSpec env .and l).and (unitVal env x) := by
+  cases l with
+  | nil => simp [listSpec, listSpecRuns]
+  | cons e r =>
+    have hr : noSingleOr r = true := by
+      simp only [noSingleOr, List.all_cons, Bool.and_eq_true] at hl; simpa [noSingleOr] using hl.2
+    have hrx : noSingleOr (r ++ [x]) = true := by
+      simp only [noSingleOr, List.all_append, Bool.and_eq_true] at hr ⊢
+      exact ⟨hr, by simp [hx]⟩
+    simp only [List.cons_append, listSpec]
+    rw [listSpecRuns_noOr _ _ _ _ hrx, listSpecRuns_noOr _ _ _ _ hr, andUnits_append]
+    simp
+
+theorem unwrapSingleAnd_of_two (a b : Ex) (r : List Ex) : unwrapSingleAnd (a :: b :: r) = a :: b :: r := by
+  cases a <;> rfl
+
+theorem swapFirst_of_head (e : Ex) (r : List Ex) (h : e.isSingleOr = false) : swapFirst (e :: r) = e :: r := by
+  simp [swapFirst, firstNonSingleOr, h]
+
+end Gorm
